@@ -24,6 +24,7 @@ func runC13(c *Ctx) {
 	checkPopOne(c, "pop-structure", routePop)
 	c13StripOnce(c)
 	c14DecoderPurityFrom(c, "ParseRoute")
+	ruleRouteSetEdits(c, "pop-structure")
 }
 
 // c13StripOnce: the routing decision strips the next-hop entry (when keepNextHopRoute is off), so it may be taken only
@@ -436,6 +437,60 @@ func c13KeepFlag(c *Ctx) {
 		c.check(saw && len(bad) == 0, rule, "Proxy."+field+"/roots", "-", "derives from the YAML option "+tag, fmt.Sprintf("Proxy.%s is mis-wired: option %s reached=%v; unexpected roots: %v", field, tag, saw, bad), "roots: "+strings.Join(res.leafList(), ", "))
 	}
 	wire("keepNextHopRoute", "keepNextHopRoute", true)
+	// the environment variable stands in for the SERVICE-level option when that is left empty, and for nothing else: a
+	// function that falls back to it is applied to the service-level option's text only. Applied to another (say, a
+	// per-listener) option whose own default is the service-level setting, the environment outranks an explicit
+	// service-level keepNextHopRoute.
+	for _, fn := range w.All {
+		if !w.isMain(fn) || fn.Blocks == nil {
+			continue
+		}
+		var ge ssa.CallInstruction
+		for _, cs := range w.callsIn(fn, "os.Getenv") {
+			if k, ok := constString(cs.In.Common().Args[0]); ok && k == "KEEP_NEXT_HOP_ROUTE" {
+				ge = cs.In
+			}
+		}
+		if ge == nil {
+			continue
+		}
+		// the string parameter whose emptiness guards the fallback
+		pi := -1
+		for i, p := range fn.Params {
+			if !isStringType(p.Type()) {
+				continue
+			}
+			p := p
+			empty := func(a Atom) bool { return a.Kind == "eqstr" && a.Str == "" && strip(a.X) == ssa.Value(p) }
+			if w.requires(fn, ge, empty, true) {
+				pi = i
+			}
+		}
+		c.check(pi >= 0, rule, w.fname(fn)+"/env-only-when-unset", w.ipos(ge), "the environment is consulted only when the option is empty", "KEEP_NEXT_HOP_ROUTE is consulted although the configured option may be set: the environment outranks the configuration")
+		if pi < 0 {
+			continue
+		}
+		node := w.CG.Nodes[fn]
+		if node == nil {
+			continue
+		}
+		k := 0
+		for _, e := range node.In {
+			if e.Site == nil || e.Site.Common().StaticCallee() != fn || pi >= len(e.Site.Common().Args) {
+				continue
+			}
+			k++
+			res := g.backward([]ssa.Value{e.Site.Common().Args[pi]}, nil)
+			var other []string
+			for _, l := range res.leafList() {
+				body := l[1:]
+				if strings.HasPrefix(body, "field-root:") && strings.TrimPrefix(body, "field-root:") != "ProxyConfig.KeepNextHopRoute" {
+					other = append(other, strings.TrimPrefix(body, "field-root:"))
+				}
+			}
+			c.check(len(other) == 0, rule, fmt.Sprintf("%s/env-fallback-for-service-option#%d", w.fname(fn), k), w.ipos(e.Site), "the environment fallback is applied to the service-level option", fmt.Sprintf("the function that falls back to KEEP_NEXT_HOP_ROUTE is applied to %v, not to the service-level keepNextHopRoute: when that other option is unset the environment is taken before the explicit service-level setting that should be its default", other))
+		}
+	}
 	// toKeepNextHopRoute: true exactly for the listed spellings of its argument (or the environment default when empty)
 	if tk := c.fn(rule, "toKeepNextHopRoute"); tk != nil {
 		good := false
